@@ -287,6 +287,8 @@ def case_resp(ctx, pym, cs, grid, w, modes, x, seed, uovs=(), tag='resp'):
             f'Ql_close {qlit(td)}%Q (fc_sensitivity f {n}%nat s) {ql(qarr(dx))}%Q && '
             f'Ql_close {qlit(td)}%Q (fc_sensitivity_lin f {n}%nat s) {ql(qarr(dx))}%Q)')
     kinds = tuple('const' if isinstance(mm, Number) else mm for mm in modes)
+    k = 'scipy.signal.convolve(valid)/correlate(full) = defining sums (1e-9)'
+    ctx.oracle_validation[k] = ctx.oracle_validation.get(k, 0) + 1
     ctx.count('resp:dim%d' % (2 if nz == 0 else 3))
     ctx.count('resp:overrides' if uovs else 'resp:plain')
     cs.add((tag, grid, w3.shape, kinds, len(uovs), hash(x.tobytes()) & 0xffff), expr,
@@ -379,6 +381,8 @@ def case_dens(ctx, pym, cs, grid, r, x, seed, nonpad=None):
             f'Ql_close {qlit(ty)}%Q (dens_response g de wt Qmax {npd} {ql(qarr(x))}%Q) {ql(qarr(y))}%Q && '
             f'Ql_close {qlit(td)}%Q (dens_sensitivity g de wt Qmax {npd} {ql(qarr(seed))}%Q) {ql(qarr(dx))}%Q && '
             f'Ql_close {qlit(ty)}%Q (apply (dens_triples g de wt Qmax {npd}) {dom.nel}%nat {ql(qarr(x))}%Q) {ql(qarr(y))}%Q)')
+    k = 'scipy.sparse coo->csc, H.sum(1), H*x = row sums / row dot products (1e-9)'
+    ctx.oracle_validation[k] = ctx.oracle_validation.get(k, 0) + 1
     ctx.count('dens:dim%d' % (2 if nz == 0 else 3))
     ctx.count('dens:nonpadding' if nonpad is not None else 'dens:plain')
     ctx.count('dens:r<1' if r < 1 else ('dens:r>domain' if r > max(nx, ny, max(nz, 1)) else 'dens:mid'))
@@ -557,7 +561,7 @@ def run(ctx):
     rng = ctx.rng
     ctx.rule = ('corpus first; per-axis exhaustive padding (16 mode pairs x n<=5 x pad<=n+2 on each of the three axes); random '
                 '6-tuples of modes x grids 1..5 (2-D and 3-D, one-element-wide included) x pad sizes 0..n+2 (thorough: all 256 '
-                '4-tuples x 2-D grids <=3x2 x pad sizes {0,1,n+1}); np.pad 1-D index semantics on n<=6 x pads<=2n+3; responses/'
+                '4-tuples x 2-D grids <=3x2 x pad sizes {0,1,n,n+2}); np.pad 1-D index semantics on n<=6 x pads<=2n+3; responses/'
                 'sensitivities with integer or dyadic normalised kernels and integer fields incl. override_values; radius '
                 'kernels 0.3..domain+1.5 in relative/absolute units; DensityFilter H/Hs/response/sensitivity incl. nonpadding; '
                 'malformed constructor calls (exception class only).  A case is non-trivial when something is padded / the '
@@ -624,11 +628,11 @@ def run(ctx):
         for kinds4 in itertools.product(MODES, repeat=4):
             for nx in (1, 2, 3):
                 for ny in (1, 2):
-                    for px in (0, 1, nx + 1):
-                        for py in (0, 1, ny + 1):
+                    for px in sorted({0, 1, nx, nx + 2}):
+                        for py in sorted({0, 1, ny, ny + 2}):
                             case_pad(ctx, pym, cs, (nx, ny, 0), [px, py, 0], make_modes(list(kinds4) + ['symmetric'] * 2),
                                      tag='pad-2d-exh')
-        ctx.extra['exhaustive_2d'] = 'all 256 mode 4-tuples x grids {1,2,3}x{1,2} x pad sizes {0, 1, n+1} per axis'
+        ctx.extra['exhaustive_2d'] = 'all 256 mode 4-tuples x grids {1,2,3}x{1,2} x pad sizes {0, 1, n, n+2} per axis'
 
     # ---- responses / sensitivities with explicit kernels
     for t in range(110 if quick else 900):
